@@ -89,6 +89,8 @@ theorem decUnprot_no_panic : ∀ (w : Wire), decUnprot w ≠ .panic
     have h1 := labelsOK_no_panic kvs []
     have h2 := decUnprotPairs_no_panic kvs
     cases hl : labelsOK kvs [] <;> simp_all
+    split
+    · simp
     cases hd : decUnprotPairs kvs <;> simp_all
     split <;> simp
   | .uint .. => by simp [decUnprot]
@@ -252,6 +254,7 @@ theorem unprotected_unmarshal_no_panic (b : Bytes) : Unprotected.unmarshal b ≠
   crush
   all_goals first
     | exact decUnprot_no_panic _
+    | (rename_i hp; exact absurd hp (labelsOK_no_panic _ _))
     | simp
 
 theorem key_ofMap_no_panic (m : GoMap) : Key.ofMap m ≠ .panic := by
@@ -263,11 +266,14 @@ theorem key_unmarshal_no_panic (b : Bytes) : Key.unmarshal b ≠ .panic := by
   unfold Key.unmarshal
   split
   · simp
+  split
+  · simp
   · rename_i kvs _
     have h := decodePairs_no_panic kvs []
+    split
+    · simp
     cases hd : decodePairs kvs [] <;> simp_all
     exact key_ofMap_no_panic _
-  · simp
   · simp
 
 /-! ### 4. follow-up operations on any value -/
